@@ -5,6 +5,7 @@
  *                        OPUS_SET_APPLICATION; lines "I delay lookahead <kind> <Fs> <app> <ch>" / "O <value|ERR>".
  *   mdct <seed> <n>      clt_mdct_forward_c / clt_mdct_backward_c of the static 48 kHz mode on seeded vectors for all
  *                        shifts: "I mdct fwd <shift> <in>" / "O <out>", "I mdct bwd <shift> <coef> <outbuf>" / "O <out>"
+ *                        and "I mdct fft <shift> <in>" / "O <out>" (opus_fft_c, interleaved re,im), all
  *                        (floats as IEEE single bit patterns, 8 hex digits each), compared with the Lean model by
  *                        Driver/DelayMain.lean; plus "T tdac ..." lines: forward -> backward with overlap-add over
  *                        consecutive frames on the real code vs. the input (evaluated by tools/props/C04.py).
@@ -34,6 +35,7 @@
 #include "celt.h"
 #include "modes.h"
 #include "mdct.h"
+#include "kiss_fft.h"
 
 #ifndef M_PI
 #define M_PI 3.14159265358979323846
@@ -481,6 +483,19 @@ static void mode_mdct(uint64_t seed, int ncase)
          printf("I mdct bwd %d ", shift); putf(coef, N2); printf(" "); putf(out, N2 + ov); printf("\n"); fflush(stdout);
          clt_mdct_backward_c(&m->mdct, in2, out, m->window, ov, shift, 1, arch);
          printf("O "); putf(out, N2 + ov); printf("\n");
+      }
+      /* the FFT alone: opus_fft_c of this shift's configuration (nfft = N/4; output scaled by 1/nfft) */
+      for (cs = 0; cs < ncase; cs++) {
+         const kiss_fft_state *cfg = m->mdct.kfft[shift]; int nf = cfg->nfft;
+         kiss_fft_cpx *fin = (kiss_fft_cpx *)malloc(sizeof(kiss_fft_cpx) * nf), *fout = (kiss_fft_cpx *)malloc(sizeof(kiss_fft_cpx) * nf);
+         for (i = 0; i < nf; i++) {
+            fin[i].r = cs % 3 == 2 ? (float)(i == (7 * cs + 1) % nf) : (float)(urand(&r) * 2 - 1);
+            fin[i].i = cs % 3 == 2 ? 0.f : (float)(urand(&r) * 2 - 1);
+         }
+         printf("I mdct fft %d ", shift); putf((const float *)fin, 2 * nf); printf("\n"); fflush(stdout);
+         opus_fft_c(cfg, fin, fout);
+         printf("O "); putf((const float *)fout, 2 * nf); printf("\n");
+         free(fin); free(fout);
       }
       /* TDAC on the real code: T consecutive blocks, hop N2 */
       for (cs = 0; cs < ncase; cs++) {
